@@ -784,9 +784,13 @@ func nrListed(entries []*m.S, n int) int {
 //@ recursive nrListed
 
 // generateTimelineEntries: memory safety and termination for every well-formed window, the
-// timescale, "nothing listed" exactly when no segment has ended, startNr <= lsi.nr, and a first
-// entry with an explicit start time. (The functional characterisation of lsi.nr / lsi.startTime /
-// the number of listed segments was attempted and is NOT claimed: see DESIGN.md, C02.)
+// timescale, "nothing listed" exactly when no segment has ended, and the functional
+// characterisation of both edges against the spec functions of the segment server: the last
+// listed number is the newest segment that has ended at now+ato (newestEnded / noneEndedYet), the
+// first listed number is the newest segment that had ended at the start of the window, or 0
+// (firstEnded / firstNewest), first <= last, a first entry with an explicit start time, and the
+// recorded last-segment info. The proof is staged through store-site, loop-invariant and exit
+// clauses (each a small obligation); see DESIGN.md, C02.
 //@ func (*asset).generateTimelineEntries
 //@   nowrap assumed
 //@   requires a != nil && a.Reps != nil && a.Reps[repID] != nil && wfRep(a.Reps[repID]) && orderedRep(a.Reps[repID]) && loopExact(a, a.Reps[repID]) && wfWrapTimes(a, wt) && 0 <= atoMS && atoMS <= 86400000
@@ -803,8 +807,10 @@ func nrListed(entries []*m.S, n int) int {
 //@   ensures  runs: forall k in [0, len(result.entries)) :: result.entries[k] != nil && result.entries[k].R >= 0
 //@   ensures  newestEnded: result.lsi.nr >= 0 && a.Reps[repID].Segments[0].StartTime == 0 ==> specEnd(a, a.Reps[repID], result.lsi.nr) <= specNowTicks(a, a.Reps[repID], wt, atoMS) && specNowTicks(a, a.Reps[repID], wt, atoMS) < specEnd(a, a.Reps[repID], result.lsi.nr+1)
 //@   ensures  noneEndedYet: result.lsi.nr < 0 && a.Reps[repID].Segments[0].StartTime == 0 ==> specNowTicks(a, a.Reps[repID], wt, atoMS) < specEnd(a, a.Reps[repID], 0)
+//@   ensures  firstEnded: result.startNr >= 0 && a.Reps[repID].Segments[0].StartTime == 0 && specEnd(a, a.Reps[repID], 0) <= specStartTicks(a, a.Reps[repID], wt, atoMS) ==> specEnd(a, a.Reps[repID], result.startNr) <= specStartTicks(a, a.Reps[repID], wt, atoMS)
+//@   ensures  firstNewest: result.startNr >= 0 && a.Reps[repID].Segments[0].StartTime == 0 ==> specStartTicks(a, a.Reps[repID], wt, atoMS) < specEnd(a, a.Reps[repID], result.startNr+1)
 //@   ensures  lastSegInfo: result.lsi.nr >= 0 ==> result.lsi.startTime == uint64(specStart(a, a.Reps[repID], result.lsi.nr)) && result.lsi.dur == specDur(a.Reps[repID], result.lsi.nr) && result.lsi.timescale == uint64(a.Reps[repID].MediaTimescale)
-//@   allocates
+//@   allocates mpd.S, uint64, []*mpd.S
 //@   loop 1 use-entry lemmaDivMul(wt.startWraps, relStartIdx, nrSegs)
 //@   loop 1 use-entry lemmaDivMul(wt.nowWraps, relNowIdx, nrSegs)
 //@   loop 1 use-entry lemmaDivMulImp(wt.nowWraps, relNowIdx+1, nrSegs)
@@ -832,7 +838,7 @@ func nrListed(entries []*m.S, n int) int {
 //@   store relStartIdx := requires startSplit: specStartTicks(a, rep, old(wt), atoMS) == wt.startWraps*int(wrapDur) + int(relStartTime) && relStartTime < wrapDur
 //@   store relStartIdx = requires startLastFinishedOrWrap: relStartIdx == nrSegs-1 || relStartIdx == 0 || (relStartIdx >= -1 && relStartIdx < nrSegs && (relStartIdx >= 0 ==> segs[relStartIdx].EndTime <= relStartTime) && (relStartIdx+1 < nrSegs ==> segs[relStartIdx+1].EndTime > relStartTime))
 //@   store relNowTime := requires startInLoop: relStartTime >= segs[0].EndTime ==> specStartTicks(a, rep, old(wt), atoMS) == wt.startWraps*int(wrapDur) + int(relStartTime) && 0 <= relStartIdx && relStartIdx < nrSegs && segs[relStartIdx].EndTime <= relStartTime && (relStartIdx+1 < nrSegs ==> segs[relStartIdx+1].EndTime > relStartTime)
-//@   store relNowTime := requires startPrevLoop: relStartTime < segs[0].EndTime ==> (specStartTicks(a, rep, old(wt), atoMS) == (wt.startWraps+1)*int(wrapDur) + int(relStartTime) && relStartIdx == nrSegs-1) || (wt.startWraps == 0 && relStartIdx == 0)
+//@   store relNowTime := requires startPrevLoop: relStartTime < segs[0].EndTime ==> (specStartTicks(a, rep, old(wt), atoMS) == (wt.startWraps+1)*int(wrapDur) + int(relStartTime) && relStartIdx == nrSegs-1) || (wt.startWraps == 0 && relStartIdx == 0 && specStartTicks(a, rep, old(wt), atoMS) == int(relStartTime))
 //@   store relNowTime := requires startWrapsNonNeg: wt.startWraps >= 0 && relStartTime < wrapDur && 0 <= relStartIdx && relStartIdx < nrSegs
 //@   store relNowTime %= requires nowRemainderReduced: relNowTime < wrapDur
 //@   store relNowTime %= requires rolledInstantUnchanged: specNowTicks(a, rep, old(wt), atoMS) == wt.nowWraps*int(wrapDur) + int(relNowTime)
@@ -853,6 +859,24 @@ func nrListed(entries []*m.S, n int) int {
 //@   exit 2 requires nextAfterWrapEnd: relNowIdx+1 == nrSegs ==> specEnd(a, rep, nowNr+1) == int(segs[0].EndTime) + (wt.nowWraps+1)*int(wrapDur)
 //@   exit 2 requires nextAfterWrapHasNotEnded: segs[0].StartTime == 0 && relNowIdx+1 == nrSegs ==> specNowTicks(a, rep, old(wt), atoMS) < specEnd(a, rep, nowNr+1)
 //@   exit 2 requires edgeIsNowNr: lsi.nr == nowNr && se.startNr <= lsi.nr
+//@   loop 1 use-entry lemmaDivMulImp(wt.startWraps, relStartIdx+1, nrSegs)
+//@   loop 1 use-entry lemmaDivMul(wt.startWraps+1, 0, nrSegs)
+//@   loop 1 invariant fstTicks: se.startNr == wt.startWraps*nrSegs + relStartIdx && 0 <= relStartIdx && relStartIdx < nrSegs && wt.startWraps >= 0 && relStartTime < wrapDur
+//@   loop 1 invariant fstQuot: se.startNr/len(rep.Segments) == wt.startWraps && se.startNr%len(rep.Segments) == relStartIdx
+//@   loop 1 invariant fstInLoop: relStartTime >= segs[0].EndTime ==> specStartTicks(a, rep, old(wt), atoMS) == wt.startWraps*int(wrapDur) + int(relStartTime) && segs[relStartIdx].EndTime <= relStartTime && (relStartIdx+1 < nrSegs ==> segs[relStartIdx+1].EndTime > relStartTime)
+//@   loop 1 invariant fstPrevLoop: relStartTime < segs[0].EndTime ==> (specStartTicks(a, rep, old(wt), atoMS) == (wt.startWraps+1)*int(wrapDur) + int(relStartTime) && relStartIdx == nrSegs-1) || (wt.startWraps == 0 && relStartIdx == 0 && specStartTicks(a, rep, old(wt), atoMS) == int(relStartTime))
+//@   loop 1 invariant fstNextInLoop: relStartIdx+1 < nrSegs ==> (se.startNr+1)/len(rep.Segments) == wt.startWraps && (se.startNr+1)%len(rep.Segments) == relStartIdx+1
+//@   loop 1 invariant fstNextAfterWrap: relStartIdx+1 == nrSegs ==> (se.startNr+1)/len(rep.Segments) == wt.startWraps+1 && (se.startNr+1)%len(rep.Segments) == 0
+//@   exit 2 requires fstEndedInLoop: segs[0].StartTime == 0 && relStartTime >= segs[0].EndTime ==> specEnd(a, rep, se.startNr) <= specStartTicks(a, rep, old(wt), atoMS)
+//@   exit 2 requires fstEndedPrevLoop: segs[0].StartTime == 0 && relStartTime < segs[0].EndTime && specEnd(a, rep, 0) <= specStartTicks(a, rep, old(wt), atoMS) ==> specEnd(a, rep, se.startNr) <= specStartTicks(a, rep, old(wt), atoMS)
+//@   exit 2 requires fstNextInLoopNr: relStartIdx+1 < nrSegs ==> (se.startNr+1)/len(rep.Segments) == wt.startWraps && (se.startNr+1)%len(rep.Segments) == relStartIdx+1
+//@   exit 2 requires fstNextInLoopEnd: relStartIdx+1 < nrSegs ==> specEnd(a, rep, se.startNr+1) == int(rep.Segments[(se.startNr+1)%len(rep.Segments)].EndTime) + wt.startWraps*int(wrapDur)
+//@   exit 2 requires fstNextInLoopSeg: relStartIdx+1 < nrSegs ==> rep.Segments[(se.startNr+1)%len(rep.Segments)].EndTime == segs[relStartIdx+1].EndTime
+//@   exit 2 requires fstNextAfterWrapNr: relStartIdx+1 == nrSegs ==> (se.startNr+1)/len(rep.Segments) == wt.startWraps+1 && (se.startNr+1)%len(rep.Segments) == 0
+//@   exit 2 requires fstNextAfterWrapEnd: relStartIdx+1 == nrSegs ==> specEnd(a, rep, se.startNr+1) == int(segs[0].EndTime) + (wt.startWraps+1)*int(wrapDur)
+//@   exit 2 requires fstWrapSplit: (wt.startWraps+1)*int(wrapDur) == wt.startWraps*int(wrapDur) + int(wrapDur)
+//@   exit 2 requires fstNextInLoopNotEnded: segs[0].StartTime == 0 && relStartIdx+1 < nrSegs ==> specStartTicks(a, rep, old(wt), atoMS) < specEnd(a, rep, se.startNr+1)
+//@   exit 2 requires fstNextAfterWrapNotEnded: segs[0].StartTime == 0 && relStartIdx+1 == nrSegs ==> specStartTicks(a, rep, old(wt), atoMS) < specEnd(a, rep, se.startNr+1)
 //@   exit 1 requires noneEnded: segs[0].StartTime == 0 ==> specNowTicks(a, rep, old(wt), atoMS) < specEnd(a, rep, 0)
 //@   loop 1 use-entry lemmaWrapDurIsRepDur(a, rep)
 //@   loop 1 use lemmaGapFree(a, rep, nr-1)
@@ -865,6 +889,202 @@ func nrListed(entries []*m.S, n int) int {
 //@   loop 1 invariant s != nil && fresh(s) && len(se.entries) >= 1 && fresh(se.entries) && se.mediaTimescale == uint32(rep.MediaTimescale)
 //@   loop 1 invariant se.entries[0] != nil && se.entries[0].T != nil && fresh(se.entries[0])
 //@   loop 1 decreases nowNr + 1 - nr
+
+// ---------------------------------------------------------------------------
+// C02: what the MPD lists is what the server serves (the bridge between the window
+// arithmetic in media ticks and the availability test in float seconds)
+
+// lemmaFloorMul: integer division rounds down by less than the divisor.
+//@ lemma lemmaFloorMul
+//@   ensures  x >= 0 && d > 0 ==> (x/d)*d <= x && x < (x/d)*d + d
+func lemmaFloorMul(x, d int) {}
+
+// lemmaTicksVsMs: comparing E media ticks with M milliseconds in integers is the same as
+// comparing the two instants in (real) seconds.
+//@ lemma lemmaTicksVsMs
+//@   realdiv
+//@   requires ts > 0
+//@   ensures  le: 1000*E <= M*ts <==> float64(E)/float64(ts) <= float64(M)/1000.0
+func lemmaTicksVsMs(E, ts, M int) {}
+
+// lemmaSpecEndMono: segment ends grow with the segment number, also across loops.
+//@ lemma lemmaSpecEndMono
+//@   requires a != nil && wfRep(rep) && orderedRep(rep) && loopExact(a, rep) && rep.Segments[0].StartTime == 0 && 0 <= i && i <= j
+//@   use      lemmaWrapDurIsRepDur(a, rep)
+//@   ensures  specEnd(a, rep, i) <= specEnd(a, rep, j)
+func lemmaSpecEndMono(a *asset, rep *RepData, i, j int) {
+	N := len(rep.Segments)
+	W := wrapDurOf(a, rep)
+	lemmaDivMono(i, j, N)
+	if i/N == j/N {
+		assert(i%N <= j%N)
+		lemmaEndMono(rep, i%N, j%N)
+	} else {
+		lemmaEndMono(rep, i%N, N-1)
+		assert(int(rep.Segments[i%N].EndTime) <= W)
+		lemmaMulMono(i/N+1, j/N, W)
+		assert((i/N+1)*W == (i/N)*W+W)
+	}
+}
+
+// lemmaTicksMs: an instant given as whole loops plus a remainder in ms (T = w*L + rel), moved
+// by an offset of atoMS, and converted to media ticks the way the window arithmetic does it
+// (Tk), is the instant (T+atoMS) ms rounded down to ticks - when the offset is a whole number of ticks.
+//@ lemma lemmaTicksMs
+//@   requires ts > 0 && w >= 0 && rel >= 0 && atoMS >= 0 && 1000*W == L*ts && T == w*L+rel && (atoMS*ts)%1000 == 0
+//@   requires Tk == w*W + rel*ts/1000 + atoMS*ts/1000
+//@   use      lemmaFloorMul(rel*ts, 1000)
+//@   use      lemmaFloorMul(atoMS*ts, 1000)
+//@   use      lemmaMulMono(0, rel, ts)
+//@   use      lemmaMulMono(0, atoMS, ts)
+//@   ensures  upper: 1000*Tk <= (T+atoMS)*ts
+//@   ensures  lower: 1000*Tk+1000 > (T+atoMS)*ts
+func lemmaTicksMs(w, L, ts, rel, atoMS, W, T, Tk int) {
+	assert(1000*(w*W) == w*(L*ts))
+	assert((T+atoMS)*ts == w*(L*ts)+rel*ts+atoMS*ts)
+}
+
+// lemmaAfterIsEarly / lemmaEndedIsAvailable / lemmaNotGone: the three comparisons of a segment
+// end e (ticks since availabilityStartTime, S s after the epoch) with the request instant M ms.
+//@ lemma lemmaAfterIsEarly
+//@   requires ts > 0 && Tk < e && 1000*Tk+1000 > (M-1000*S+atoMS)*ts
+//@   ensures  1000*(e+S*ts) > (M+atoMS)*ts
+func lemmaAfterIsEarly(Tk, e, S, ts, M, atoMS int) {
+	assert((M+atoMS)*ts == (M-1000*S+atoMS)*ts+1000*(S*ts))
+}
+
+//@ lemma lemmaEndedIsAvailable
+//@   requires ts > 0 && e <= Tk && 1000*Tk <= (M-1000*S+atoMS)*ts
+//@   ensures  1000*(e+S*ts) <= (M+atoMS)*ts
+func lemmaEndedIsAvailable(Tk, e, S, ts, M, atoMS int) {
+	assert((M+atoMS)*ts == (M-1000*S+atoMS)*ts+1000*(S*ts))
+}
+
+//@ lemma lemmaNotGone
+//@   requires ts > 0 && sTk < e2 && 1000*sTk+1000 > (Ms-1000*S+atoMS)*ts && e1+d == e2 && d <= 10*ts && e1 <= eK && Ms >= M-1000*tsbdS
+//@   use      lemmaMulMono(M-1000*tsbdS-1000*S+atoMS, Ms-1000*S+atoMS, ts)
+//@   ensures  1000*(eK+S*ts) > (M+atoMS-1000*(tsbdS+10))*ts
+func lemmaNotGone(sTk, e1, e2, d, eK, S, ts, M, Ms, atoMS, tsbdS int) {
+	assert((M+atoMS-1000*(tsbdS+10))*ts == (M-1000*tsbdS-1000*S+atoMS)*ts+1000*(S*ts)-10000*ts)
+}
+
+// lemmaPhaseFromTicks: the availability phase that the segment server computes in float seconds,
+// decided by integer comparisons of the segment end (ticks) with the request instant (ms).
+//@ lemma lemmaPhaseFromTicks
+//@   realdiv
+//@   requires a != nil && wfRep(rep) && loopExact(a, rep) && wfCfg(cfg) && n >= 0 && 0 <= nowMS
+//@   requires 0.0 <= cfg.AvailabilityTimeOffsetS && cfg.AvailabilityTimeOffsetS <= 86400.0 && float64(atoMS) == 1000*cfg.AvailabilityTimeOffsetS
+//@   use      lemmaTicksVsMs(specEnd(a, rep, n)+cfg.StartTimeS*rep.MediaTimescale, rep.MediaTimescale, nowMS+atoMS)
+//@   use      lemmaTicksVsMs(specEnd(a, rep, n)+cfg.StartTimeS*rep.MediaTimescale, rep.MediaTimescale, nowMS+atoMS-1000*(*cfg.TimeShiftBufferDepthS+10))
+//@   ensures  early: 1000*(specEnd(a, rep, n)+cfg.StartTimeS*rep.MediaTimescale) > (nowMS+atoMS)*rep.MediaTimescale ==> specPhase(specAvailS(a, rep, cfg, n), float64(nowMS)*0.001, float64(*cfg.TimeShiftBufferDepthS), cfg.AvailabilityTimeOffsetS) == phaseEarly
+//@   ensures  ok: 1000*(specEnd(a, rep, n)+cfg.StartTimeS*rep.MediaTimescale) <= (nowMS+atoMS)*rep.MediaTimescale && 1000*(specEnd(a, rep, n)+cfg.StartTimeS*rep.MediaTimescale) > (nowMS+atoMS-1000*(*cfg.TimeShiftBufferDepthS+10))*rep.MediaTimescale ==> specPhase(specAvailS(a, rep, cfg, n), float64(nowMS)*0.001, float64(*cfg.TimeShiftBufferDepthS), cfg.AvailabilityTimeOffsetS) == phaseOK
+func lemmaPhaseFromTicks(a *asset, rep *RepData, cfg *ResponseConfig, nowMS, n, atoMS int) {
+	ts := rep.MediaTimescale
+	e := specEnd(a, rep, n)
+	assert(specAvailS(a, rep, cfg, n) == float64(e+cfg.StartTimeS*ts)/float64(ts))
+}
+
+// listedWindowOK: the inputs of the two lemmas below - a loaded representation whose first
+// segment starts at 0, a validated configuration, an instant after availabilityStartTime, and an
+// availabilityTimeOffset that is a whole number of milliseconds and of media ticks (otherwise the
+// two roundings of the offset differ by less than one tick).
+func listedWindowOK(a *asset, repID string, cfg *ResponseConfig, nowMS int) bool {
+	return a != nil && a.Reps != nil && a.Reps[repID] != nil && wfRep(a.Reps[repID]) && orderedRep(a.Reps[repID]) && loopExact(a, a.Reps[repID]) && a.Reps[repID].Segments[0].StartTime == 0 &&
+		wfCfg(cfg) && cfg.StartTimeS*1000 <= nowMS && nowMS <= maxNowMS && (nowMS-cfg.StartTimeS*1000)/a.LoopDurMS <= maxWraps &&
+		0.0 <= cfg.AvailabilityTimeOffsetS && cfg.AvailabilityTimeOffsetS <= 86400.0 &&
+		float64(int(1000*cfg.AvailabilityTimeOffsetS)) == 1000*cfg.AvailabilityTimeOffsetS && (int(1000*cfg.AvailabilityTimeOffsetS)*a.Reps[repID].MediaTimescale)%1000 == 0
+}
+
+// lemmaAfterEdgeIsEarly: THE statement of C02 on the real functions, part 1. At any instant the
+// number after the last one that generateTimelineEntries lists (window from calcWrapTimes, offset
+// in ms as LiveMPD passes it) is refused by findSegMetaFromNr as too early at that same instant.
+//@ lemma lemmaAfterEdgeIsEarly
+//@   realdiv
+//@   requires listedWindowOK(a, repID, cfg, nowMS)
+func lemmaAfterEdgeIsEarly(a *asset, repID string, cfg *ResponseConfig, nowMS int) {
+	rep := a.Reps[repID]
+	ts := rep.MediaTimescale
+	W := wrapDurOf(a, rep)
+	S := cfg.StartTimeS
+	snr := specStartNr(cfg)
+	wt := calcWrapTimes(a, cfg, nowMS, m.Duration(*cfg.TimeShiftBufferDepthS*1000000000))
+	atoMS := int(1000 * cfg.AvailabilityTimeOffsetS)
+	se := a.generateTimelineEntries(repID, wt, atoMS)
+	last := se.lsi.nr
+	if last < 0 || last+1+snr >= 4294967295 {
+		return
+	}
+	lemmaWrapDurIsRepDur(a, rep)
+	assert(1000*W == a.LoopDurMS*ts)
+	nowTicks := specNowTicks(a, rep, wt, atoMS)
+	lemmaTicksMs(wt.nowWraps, a.LoopDurMS, ts, wt.nowRelMS, atoMS, W, nowMS-1000*S, nowTicks)
+	next := int(uint32(last+1+snr)) - snr // the number as the server counts it
+	assert(next == last+1)
+	eNext := specEnd(a, rep, next)
+	assert(nowTicks < eNext)
+	lemmaAfterIsEarly(nowTicks, eNext, S, ts, nowMS, atoMS)
+	lemmaPhaseFromTicks(a, rep, cfg, nowMS, next, atoMS)
+	_, errNext := findSegMetaFromNr(a, rep, uint32(last+1+snr), cfg, nowMS)
+	assert(typeIsTooEarly(errNext))
+}
+
+// lemmaListedIsServed: THE statement of C02 on the real functions, part 2. Every number k that
+// generateTimelineEntries lists (first listed <= k <= last listed) is in the "available" phase
+// of findSegMetaFromNr at that same instant: not too early, because it ends no later than the last
+// listed one, which has ended; not gone, because it ends no earlier than the first listed one, and the
+// segment after that one had not ended at the start of the window.
+//@ lemma lemmaListedIsServed
+//@   realdiv
+//@   requires listedWindowOK(a, repID, cfg, nowMS)
+func lemmaListedIsServed(a *asset, repID string, cfg *ResponseConfig, nowMS, k int) {
+	rep := a.Reps[repID]
+	ts := rep.MediaTimescale
+	W := wrapDurOf(a, rep)
+	S := cfg.StartTimeS
+	snr := specStartNr(cfg)
+	tsbdS := *cfg.TimeShiftBufferDepthS
+	wt := calcWrapTimes(a, cfg, nowMS, m.Duration(tsbdS*1000000000))
+	atoMS := int(1000 * cfg.AvailabilityTimeOffsetS)
+	se := a.generateTimelineEntries(repID, wt, atoMS)
+	last := se.lsi.nr
+	first := se.startNr
+	if last < 0 || last+1+snr >= 4294967295 || k < first || k > last {
+		return
+	}
+	lemmaWrapDurIsRepDur(a, rep)
+	assert(1000*W == a.LoopDurMS*ts)
+	nowTicks := specNowTicks(a, rep, wt, atoMS)
+	lemmaTicksMs(wt.nowWraps, a.LoopDurMS, ts, wt.nowRelMS, atoMS, W, nowMS-1000*S, nowTicks)
+	kk := int(uint32(k+snr)) - snr // the number as the server counts it
+	assert(kk == k)
+	eK := specEnd(a, rep, kk)
+	eLast := specEnd(a, rep, last)
+	assert(eLast <= nowTicks)
+	lemmaSpecEndMono(a, rep, kk, last)
+	lemmaEndedIsAvailable(nowTicks, eK, S, ts, nowMS, atoMS)
+	startTicks := specStartTicks(a, rep, wt, atoMS)
+	lemmaTicksMs(wt.startWraps, a.LoopDurMS, ts, wt.startRelMS, atoMS, W, wt.startTimeMS-1000*S, startTicks)
+	eFirst := specEnd(a, rep, first)
+	eSecond := specEnd(a, rep, first+1)
+	dSecond := int(specDur(rep, first+1))
+	assert(startTicks < eSecond)
+	lemmaGapFree(a, rep, first)
+	lemmaGapFree(a, rep, first+1)
+	assert(eSecond == eFirst+dSecond)
+	if kk == first {
+		// the first listed segment ended before the start of the window, by less than the duration
+		// of the segment after it: the server's 10 s margin must cover that
+		assert(dSecond <= 10*ts) // KNOWN FINDING (C02): fails for VoD segments longer than 10 s
+		lemmaSpecEndMono(a, rep, first, kk)
+		lemmaNotGone(startTicks, eFirst, eSecond, dSecond, eK, S, ts, nowMS, wt.startTimeMS, atoMS, tsbdS)
+	} else {
+		lemmaSpecEndMono(a, rep, first+1, kk)
+		lemmaNotGone(startTicks, eSecond, eSecond, 0, eK, S, ts, nowMS, wt.startTimeMS, atoMS, tsbdS)
+	}
+	lemmaPhaseFromTicks(a, rep, cfg, nowMS, kk, atoMS)
+	_, errK := findSegMetaFromNr(a, rep, uint32(k+snr), cfg, nowMS)
+	assert(errK == nil)
+}
 
 // ---------------------------------------------------------------------------
 // C05: publishTime
